@@ -9,6 +9,11 @@ type nat =
 | O
 | S of nat
 
+(** val fst : ('a1 * 'a2) -> 'a1 **)
+
+let fst = function
+| (x, _) -> x
+
 (** val snd : ('a1 * 'a2) -> 'a2 **)
 
 let snd = function
@@ -297,6 +302,24 @@ module Coq_Pos =
              | XO _ -> N0
              | _ -> Npos XH)
 
+  (** val ldiff : positive -> positive -> n **)
+
+  let rec ldiff p q =
+    match p with
+    | XI p0 ->
+      (match q with
+       | XI q0 -> coq_Ndouble (ldiff p0 q0)
+       | XO q0 -> coq_Nsucc_double (ldiff p0 q0)
+       | XH -> Npos (XO p0))
+    | XO p0 ->
+      (match q with
+       | XI q0 -> coq_Ndouble (ldiff p0 q0)
+       | XO q0 -> coq_Ndouble (ldiff p0 q0)
+       | XH -> Npos p)
+    | XH -> (match q with
+             | XO _ -> Npos XH
+             | _ -> N0)
+
   (** val shiftl : positive -> n -> positive **)
 
   let shiftl p = function
@@ -478,6 +501,15 @@ module N =
     | Npos p -> (match m with
                  | N0 -> N0
                  | Npos q -> Coq_Pos.coq_land p q)
+
+  (** val ldiff : n -> n -> n **)
+
+  let ldiff n0 m =
+    match n0 with
+    | N0 -> N0
+    | Npos p -> (match m with
+                 | N0 -> n0
+                 | Npos q -> Coq_Pos.ldiff p q)
 
   (** val shiftl : n -> n -> n **)
 
@@ -2609,6 +2641,19 @@ let vt_step s b =
        (s2, (app ev_exit (app ev_act ev_entry)))
      | None -> do_action s a b)
 
+(** val vt_run : vt -> n list -> vt * event list **)
+
+let rec vt_run s = function
+| [] -> (s, [])
+| b :: rest ->
+  let (s1, e1) = vt_step s b in
+  let (s2, e2) = vt_run s1 rest in (s2, (app e1 e2))
+
+(** val spec_events : n list -> event list **)
+
+let spec_events bs =
+  snd (vt_run vt_init bs)
+
 (** val is_ws_control : n -> bool **)
 
 let is_ws_control b =
@@ -4134,3 +4179,2074 @@ let rec strip_str_chunks chunks st =
         | Some p1 -> let (pss, st'') = p1 in Some ((ps :: pss), st'')
         | None -> None)
      | None -> None)
+
+type colour =
+| CAnsi of n
+| CIdx of n
+| CRgb of n * n * n
+
+type sstyle = { s_fg : colour option; s_bg : colour option;
+                s_ul : colour option; s_eff : n }
+
+(** val style_default : sstyle **)
+
+let style_default =
+  { s_fg = None; s_bg = None; s_ul = None; s_eff = N0 }
+
+(** val bOLD : n **)
+
+let bOLD =
+  N0
+
+(** val dIMMED : n **)
+
+let dIMMED =
+  Npos XH
+
+(** val iTALIC : n **)
+
+let iTALIC =
+  Npos (XO XH)
+
+(** val uNDERLINE : n **)
+
+let uNDERLINE =
+  Npos (XI XH)
+
+(** val dOUBLE_UNDERLINE : n **)
+
+let dOUBLE_UNDERLINE =
+  Npos (XO (XO XH))
+
+(** val cURLY_UNDERLINE : n **)
+
+let cURLY_UNDERLINE =
+  Npos (XI (XO XH))
+
+(** val dOTTED_UNDERLINE : n **)
+
+let dOTTED_UNDERLINE =
+  Npos (XO (XI XH))
+
+(** val dASHED_UNDERLINE : n **)
+
+let dASHED_UNDERLINE =
+  Npos (XI (XI XH))
+
+(** val bLINK : n **)
+
+let bLINK =
+  Npos (XO (XO (XO XH)))
+
+(** val iNVERT : n **)
+
+let iNVERT =
+  Npos (XI (XO (XO XH)))
+
+(** val hIDDEN : n **)
+
+let hIDDEN =
+  Npos (XO (XI (XO XH)))
+
+(** val sTRIKETHROUGH : n **)
+
+let sTRIKETHROUGH =
+  Npos (XI (XI (XO XH)))
+
+(** val bit : n -> n **)
+
+let bit k =
+  N.shiftl (Npos XH) k
+
+(** val eff_on : sstyle -> n -> sstyle **)
+
+let eff_on s k =
+  { s_fg = s.s_fg; s_bg = s.s_bg; s_ul = s.s_ul; s_eff =
+    (N.coq_lor s.s_eff (bit k)) }
+
+(** val eff_off_mask : sstyle -> n -> sstyle **)
+
+let eff_off_mask s m =
+  { s_fg = s.s_fg; s_bg = s.s_bg; s_ul = s.s_ul; s_eff = (N.ldiff s.s_eff m) }
+
+(** val underline_mask : n **)
+
+let underline_mask =
+  Npos (XO (XO (XO (XI (XI (XI (XI XH)))))))
+
+(** val set_underline : sstyle -> n option -> sstyle **)
+
+let set_underline s kind =
+  let s0 = eff_off_mask s underline_mask in
+  (match kind with
+   | Some k -> eff_on s0 k
+   | None -> s0)
+
+(** val set_fg : sstyle -> colour option -> sstyle **)
+
+let set_fg s c =
+  { s_fg = c; s_bg = s.s_bg; s_ul = s.s_ul; s_eff = s.s_eff }
+
+(** val set_bg : sstyle -> colour option -> sstyle **)
+
+let set_bg s c =
+  { s_fg = s.s_fg; s_bg = c; s_ul = s.s_ul; s_eff = s.s_eff }
+
+(** val set_ulc : sstyle -> colour option -> sstyle **)
+
+let set_ulc s c =
+  { s_fg = s.s_fg; s_bg = s.s_bg; s_ul = c; s_eff = s.s_eff }
+
+type target =
+| TFg
+| TBg
+| TUl
+
+(** val set_target : target -> sstyle -> colour option -> sstyle **)
+
+let set_target t s c =
+  match t with
+  | TFg -> set_fg s c
+  | TBg -> set_bg s c
+  | TUl -> set_ulc s c
+
+(** val ext_target : n -> target option **)
+
+let ext_target code =
+  if N.eqb code (Npos (XO (XI (XI (XO (XO XH))))))
+  then Some TFg
+  else if N.eqb code (Npos (XO (XO (XO (XO (XI XH))))))
+       then Some TBg
+       else if N.eqb code (Npos (XO (XI (XO (XI (XI XH))))))
+            then Some TUl
+            else None
+
+(** val in_rng : n -> n -> n -> bool **)
+
+let in_rng lo hi x =
+  (&&) (N.leb lo x) (N.leb x hi)
+
+(** val sgr_code : sstyle -> n -> sstyle **)
+
+let sgr_code s c =
+  if N.eqb c N0
+  then style_default
+  else if N.eqb c (Npos XH)
+       then eff_on s bOLD
+       else if N.eqb c (Npos (XO XH))
+            then eff_on s dIMMED
+            else if N.eqb c (Npos (XI XH))
+                 then eff_on s iTALIC
+                 else if N.eqb c (Npos (XO (XO XH)))
+                      then set_underline s (Some uNDERLINE)
+                      else if (||) (N.eqb c (Npos (XI (XO XH))))
+                                (N.eqb c (Npos (XO (XI XH))))
+                           then eff_on s bLINK
+                           else if N.eqb c (Npos (XI (XI XH)))
+                                then eff_on s iNVERT
+                                else if N.eqb c (Npos (XO (XO (XO XH))))
+                                     then eff_on s hIDDEN
+                                     else if N.eqb c (Npos (XI (XO (XO XH))))
+                                          then eff_on s sTRIKETHROUGH
+                                          else if N.eqb c (Npos (XI (XO (XI
+                                                    (XO XH)))))
+                                               then set_underline s (Some
+                                                      dOUBLE_UNDERLINE)
+                                               else if N.eqb c (Npos (XO (XI
+                                                         (XI (XO XH)))))
+                                                    then eff_off_mask s
+                                                           (N.coq_lor
+                                                             (bit bOLD)
+                                                             (bit dIMMED))
+                                                    else if N.eqb c (Npos (XI
+                                                              (XI (XI (XO
+                                                              XH)))))
+                                                         then eff_off_mask s
+                                                                (bit iTALIC)
+                                                         else if N.eqb c
+                                                                   (Npos (XO
+                                                                   (XO (XO
+                                                                   (XI XH)))))
+                                                              then set_underline
+                                                                    s None
+                                                              else if 
+                                                                    N.eqb c
+                                                                    (Npos (XI
+                                                                    (XO (XO
+                                                                    (XI
+                                                                    XH)))))
+                                                                   then 
+                                                                    eff_off_mask
+                                                                    s
+                                                                    (bit
+                                                                    bLINK)
+                                                                   else 
+                                                                    if 
+                                                                    N.eqb c
+                                                                    (Npos (XI
+                                                                    (XI (XO
+                                                                    (XI
+                                                                    XH)))))
+                                                                    then 
+                                                                    eff_off_mask
+                                                                    s
+                                                                    (bit
+                                                                    iNVERT)
+                                                                    else 
+                                                                    if 
+                                                                    N.eqb c
+                                                                    (Npos (XO
+                                                                    (XO (XI
+                                                                    (XI
+                                                                    XH)))))
+                                                                    then 
+                                                                    eff_off_mask
+                                                                    s
+                                                                    (bit
+                                                                    hIDDEN)
+                                                                    else 
+                                                                    if 
+                                                                    N.eqb c
+                                                                    (Npos (XI
+                                                                    (XO (XI
+                                                                    (XI
+                                                                    XH)))))
+                                                                    then 
+                                                                    eff_off_mask
+                                                                    s
+                                                                    (bit
+                                                                    sTRIKETHROUGH)
+                                                                    else 
+                                                                    if 
+                                                                    in_rng
+                                                                    (Npos (XO
+                                                                    (XI (XI
+                                                                    (XI
+                                                                    XH)))))
+                                                                    (Npos (XI
+                                                                    (XO (XI
+                                                                    (XO (XO
+                                                                    XH)))))) c
+                                                                    then 
+                                                                    set_fg s
+                                                                    (Some
+                                                                    (CAnsi
+                                                                    (N.sub c
+                                                                    (Npos (XO
+                                                                    (XI (XI
+                                                                    (XI
+                                                                    XH))))))))
+                                                                    else 
+                                                                    if 
+                                                                    N.eqb c
+                                                                    (Npos (XI
+                                                                    (XI (XI
+                                                                    (XO (XO
+                                                                    XH))))))
+                                                                    then 
+                                                                    set_fg s
+                                                                    None
+                                                                    else 
+                                                                    if 
+                                                                    in_rng
+                                                                    (Npos (XO
+                                                                    (XO (XO
+                                                                    (XI (XO
+                                                                    XH))))))
+                                                                    (Npos (XI
+                                                                    (XI (XI
+                                                                    (XI (XO
+                                                                    XH)))))) c
+                                                                    then 
+                                                                    set_bg s
+                                                                    (Some
+                                                                    (CAnsi
+                                                                    (N.sub c
+                                                                    (Npos (XO
+                                                                    (XO (XO
+                                                                    (XI (XO
+                                                                    XH)))))))))
+                                                                    else 
+                                                                    if 
+                                                                    N.eqb c
+                                                                    (Npos (XI
+                                                                    (XO (XO
+                                                                    (XO (XI
+                                                                    XH))))))
+                                                                    then 
+                                                                    set_bg s
+                                                                    None
+                                                                    else 
+                                                                    if 
+                                                                    N.eqb c
+                                                                    (Npos (XI
+                                                                    (XI (XO
+                                                                    (XI (XI
+                                                                    XH))))))
+                                                                    then 
+                                                                    set_ulc s
+                                                                    None
+                                                                    else 
+                                                                    if 
+                                                                    in_rng
+                                                                    (Npos (XO
+                                                                    (XI (XO
+                                                                    (XI (XI
+                                                                    (XO
+                                                                    XH)))))))
+                                                                    (Npos (XI
+                                                                    (XO (XO
+                                                                    (XO (XO
+                                                                    (XI
+                                                                    XH)))))))
+                                                                    c
+                                                                    then 
+                                                                    set_fg s
+                                                                    (Some
+                                                                    (CAnsi
+                                                                    (N.add
+                                                                    (N.sub c
+                                                                    (Npos (XO
+                                                                    (XI (XO
+                                                                    (XI (XI
+                                                                    (XO
+                                                                    XH))))))))
+                                                                    (Npos (XO
+                                                                    (XO (XO
+                                                                    XH)))))))
+                                                                    else 
+                                                                    if 
+                                                                    in_rng
+                                                                    (Npos (XO
+                                                                    (XO (XI
+                                                                    (XO (XO
+                                                                    (XI
+                                                                    XH)))))))
+                                                                    (Npos (XI
+                                                                    (XI (XO
+                                                                    (XI (XO
+                                                                    (XI
+                                                                    XH)))))))
+                                                                    c
+                                                                    then 
+                                                                    set_bg s
+                                                                    (Some
+                                                                    (CAnsi
+                                                                    (N.add
+                                                                    (N.sub c
+                                                                    (Npos (XO
+                                                                    (XO (XI
+                                                                    (XO (XO
+                                                                    (XI
+                                                                    XH))))))))
+                                                                    (Npos (XO
+                                                                    (XO (XO
+                                                                    XH)))))))
+                                                                    else s
+
+(** val underline_kind : n -> n option option **)
+
+let underline_kind n0 =
+  if N.eqb n0 N0
+  then Some None
+  else if N.eqb n0 (Npos XH)
+       then Some (Some uNDERLINE)
+       else if N.eqb n0 (Npos (XO XH))
+            then Some (Some dOUBLE_UNDERLINE)
+            else if N.eqb n0 (Npos (XI XH))
+                 then Some (Some cURLY_UNDERLINE)
+                 else if N.eqb n0 (Npos (XO (XO XH)))
+                      then Some (Some dOTTED_UNDERLINE)
+                      else if N.eqb n0 (Npos (XI (XO XH)))
+                           then Some (Some dASHED_UNDERLINE)
+                           else None
+
+(** val sgr_groups : nat -> sstyle -> n list list -> sstyle **)
+
+let rec sgr_groups fuel s gs =
+  match fuel with
+  | O -> s
+  | S f ->
+    (match gs with
+     | [] -> s
+     | l :: rest ->
+       (match l with
+        | [] -> sgr_groups f s rest
+        | c :: l0 ->
+          (match c with
+           | N0 ->
+             (match l0 with
+              | [] ->
+                (match ext_target c with
+                 | Some t ->
+                   (match rest with
+                    | [] -> sgr_groups f s rest
+                    | l1 :: l2 ->
+                      (match l1 with
+                       | [] -> sgr_groups f s rest
+                       | n0 :: l3 ->
+                         (match n0 with
+                          | N0 -> sgr_groups f s rest
+                          | Npos p ->
+                            (match p with
+                             | XI p0 ->
+                               (match p0 with
+                                | XO p1 ->
+                                  (match p1 with
+                                   | XH ->
+                                     (match l3 with
+                                      | [] ->
+                                        (match l2 with
+                                         | [] -> sgr_groups f s rest
+                                         | l4 :: rest' ->
+                                           (match l4 with
+                                            | [] -> sgr_groups f s rest
+                                            | n1 :: l5 ->
+                                              (match l5 with
+                                               | [] ->
+                                                 sgr_groups f
+                                                   (set_target t s (Some
+                                                     (CIdx n1))) rest'
+                                               | _ :: _ -> sgr_groups f s rest)))
+                                      | _ :: _ -> sgr_groups f s rest)
+                                   | _ -> sgr_groups f s rest)
+                                | _ -> sgr_groups f s rest)
+                             | XO p0 ->
+                               (match p0 with
+                                | XH ->
+                                  (match l3 with
+                                   | [] ->
+                                     (match l2 with
+                                      | [] -> sgr_groups f s rest
+                                      | l4 :: l5 ->
+                                        (match l4 with
+                                         | [] -> sgr_groups f s rest
+                                         | r :: l6 ->
+                                           (match l6 with
+                                            | [] ->
+                                              (match l5 with
+                                               | [] -> sgr_groups f s rest
+                                               | l7 :: l8 ->
+                                                 (match l7 with
+                                                  | [] -> sgr_groups f s rest
+                                                  | g :: l9 ->
+                                                    (match l9 with
+                                                     | [] ->
+                                                       (match l8 with
+                                                        | [] ->
+                                                          sgr_groups f s rest
+                                                        | l10 :: rest' ->
+                                                          (match l10 with
+                                                           | [] ->
+                                                             sgr_groups f s
+                                                               rest
+                                                           | b :: l11 ->
+                                                             (match l11 with
+                                                              | [] ->
+                                                                sgr_groups f
+                                                                  (set_target
+                                                                    t s (Some
+                                                                    (CRgb (r,
+                                                                    g, b))))
+                                                                  rest'
+                                                              | _ :: _ ->
+                                                                sgr_groups f
+                                                                  s rest)))
+                                                     | _ :: _ ->
+                                                       sgr_groups f s rest)))
+                                            | _ :: _ -> sgr_groups f s rest)))
+                                   | _ :: _ -> sgr_groups f s rest)
+                                | _ -> sgr_groups f s rest)
+                             | XH -> sgr_groups f s rest))))
+                 | None -> sgr_groups f (sgr_code s c) rest)
+              | n0 :: l1 ->
+                (match n0 with
+                 | N0 -> sgr_groups f s rest
+                 | Npos p ->
+                   (match p with
+                    | XI p0 ->
+                      (match p0 with
+                       | XO p1 ->
+                         (match p1 with
+                          | XH ->
+                            (match l1 with
+                             | [] -> sgr_groups f s rest
+                             | n1 :: l2 ->
+                               (match l2 with
+                                | [] ->
+                                  (match ext_target c with
+                                   | Some t ->
+                                     sgr_groups f
+                                       (set_target t s (Some (CIdx n1))) rest
+                                   | None -> sgr_groups f s rest)
+                                | _ :: _ -> sgr_groups f s rest))
+                          | _ -> sgr_groups f s rest)
+                       | _ -> sgr_groups f s rest)
+                    | XO p0 ->
+                      (match p0 with
+                       | XH ->
+                         (match l1 with
+                          | [] -> sgr_groups f s rest
+                          | r :: l2 ->
+                            (match l2 with
+                             | [] -> sgr_groups f s rest
+                             | g :: l3 ->
+                               (match l3 with
+                                | [] -> sgr_groups f s rest
+                                | b :: l4 ->
+                                  (match l4 with
+                                   | [] ->
+                                     (match ext_target c with
+                                      | Some t ->
+                                        sgr_groups f
+                                          (set_target t s (Some (CRgb (r, g,
+                                            b)))) rest
+                                      | None -> sgr_groups f s rest)
+                                   | _ :: _ -> sgr_groups f s rest))))
+                       | _ -> sgr_groups f s rest)
+                    | XH -> sgr_groups f s rest)))
+           | Npos p ->
+             (match p with
+              | XI _ ->
+                (match l0 with
+                 | [] ->
+                   (match ext_target c with
+                    | Some t ->
+                      (match rest with
+                       | [] -> sgr_groups f s rest
+                       | l1 :: l2 ->
+                         (match l1 with
+                          | [] -> sgr_groups f s rest
+                          | n0 :: l3 ->
+                            (match n0 with
+                             | N0 -> sgr_groups f s rest
+                             | Npos p0 ->
+                               (match p0 with
+                                | XI p1 ->
+                                  (match p1 with
+                                   | XO p2 ->
+                                     (match p2 with
+                                      | XH ->
+                                        (match l3 with
+                                         | [] ->
+                                           (match l2 with
+                                            | [] -> sgr_groups f s rest
+                                            | l4 :: rest' ->
+                                              (match l4 with
+                                               | [] -> sgr_groups f s rest
+                                               | n1 :: l5 ->
+                                                 (match l5 with
+                                                  | [] ->
+                                                    sgr_groups f
+                                                      (set_target t s (Some
+                                                        (CIdx n1))) rest'
+                                                  | _ :: _ ->
+                                                    sgr_groups f s rest)))
+                                         | _ :: _ -> sgr_groups f s rest)
+                                      | _ -> sgr_groups f s rest)
+                                   | _ -> sgr_groups f s rest)
+                                | XO p1 ->
+                                  (match p1 with
+                                   | XH ->
+                                     (match l3 with
+                                      | [] ->
+                                        (match l2 with
+                                         | [] -> sgr_groups f s rest
+                                         | l4 :: l5 ->
+                                           (match l4 with
+                                            | [] -> sgr_groups f s rest
+                                            | r :: l6 ->
+                                              (match l6 with
+                                               | [] ->
+                                                 (match l5 with
+                                                  | [] -> sgr_groups f s rest
+                                                  | l7 :: l8 ->
+                                                    (match l7 with
+                                                     | [] ->
+                                                       sgr_groups f s rest
+                                                     | g :: l9 ->
+                                                       (match l9 with
+                                                        | [] ->
+                                                          (match l8 with
+                                                           | [] ->
+                                                             sgr_groups f s
+                                                               rest
+                                                           | l10 :: rest' ->
+                                                             (match l10 with
+                                                              | [] ->
+                                                                sgr_groups f
+                                                                  s rest
+                                                              | b :: l11 ->
+                                                                (match l11 with
+                                                                 | [] ->
+                                                                   sgr_groups
+                                                                    f
+                                                                    (set_target
+                                                                    t s (Some
+                                                                    (CRgb (r,
+                                                                    g, b))))
+                                                                    rest'
+                                                                 | _ :: _ ->
+                                                                   sgr_groups
+                                                                    f s rest)))
+                                                        | _ :: _ ->
+                                                          sgr_groups f s rest)))
+                                               | _ :: _ -> sgr_groups f s rest)))
+                                      | _ :: _ -> sgr_groups f s rest)
+                                   | _ -> sgr_groups f s rest)
+                                | XH -> sgr_groups f s rest))))
+                    | None -> sgr_groups f (sgr_code s c) rest)
+                 | n0 :: l1 ->
+                   (match n0 with
+                    | N0 -> sgr_groups f s rest
+                    | Npos p1 ->
+                      (match p1 with
+                       | XI p2 ->
+                         (match p2 with
+                          | XO p3 ->
+                            (match p3 with
+                             | XH ->
+                               (match l1 with
+                                | [] -> sgr_groups f s rest
+                                | n1 :: l2 ->
+                                  (match l2 with
+                                   | [] ->
+                                     (match ext_target c with
+                                      | Some t ->
+                                        sgr_groups f
+                                          (set_target t s (Some (CIdx n1)))
+                                          rest
+                                      | None -> sgr_groups f s rest)
+                                   | _ :: _ -> sgr_groups f s rest))
+                             | _ -> sgr_groups f s rest)
+                          | _ -> sgr_groups f s rest)
+                       | XO p2 ->
+                         (match p2 with
+                          | XH ->
+                            (match l1 with
+                             | [] -> sgr_groups f s rest
+                             | r :: l2 ->
+                               (match l2 with
+                                | [] -> sgr_groups f s rest
+                                | g :: l3 ->
+                                  (match l3 with
+                                   | [] -> sgr_groups f s rest
+                                   | b :: l4 ->
+                                     (match l4 with
+                                      | [] ->
+                                        (match ext_target c with
+                                         | Some t ->
+                                           sgr_groups f
+                                             (set_target t s (Some (CRgb (r,
+                                               g, b)))) rest
+                                         | None -> sgr_groups f s rest)
+                                      | _ :: _ -> sgr_groups f s rest))))
+                          | _ -> sgr_groups f s rest)
+                       | XH -> sgr_groups f s rest)))
+              | XO p0 ->
+                (match p0 with
+                 | XI _ ->
+                   (match l0 with
+                    | [] ->
+                      (match ext_target c with
+                       | Some t ->
+                         (match rest with
+                          | [] -> sgr_groups f s rest
+                          | l1 :: l2 ->
+                            (match l1 with
+                             | [] -> sgr_groups f s rest
+                             | n0 :: l3 ->
+                               (match n0 with
+                                | N0 -> sgr_groups f s rest
+                                | Npos p1 ->
+                                  (match p1 with
+                                   | XI p2 ->
+                                     (match p2 with
+                                      | XO p3 ->
+                                        (match p3 with
+                                         | XH ->
+                                           (match l3 with
+                                            | [] ->
+                                              (match l2 with
+                                               | [] -> sgr_groups f s rest
+                                               | l4 :: rest' ->
+                                                 (match l4 with
+                                                  | [] -> sgr_groups f s rest
+                                                  | n1 :: l5 ->
+                                                    (match l5 with
+                                                     | [] ->
+                                                       sgr_groups f
+                                                         (set_target t s
+                                                           (Some (CIdx n1)))
+                                                         rest'
+                                                     | _ :: _ ->
+                                                       sgr_groups f s rest)))
+                                            | _ :: _ -> sgr_groups f s rest)
+                                         | _ -> sgr_groups f s rest)
+                                      | _ -> sgr_groups f s rest)
+                                   | XO p2 ->
+                                     (match p2 with
+                                      | XH ->
+                                        (match l3 with
+                                         | [] ->
+                                           (match l2 with
+                                            | [] -> sgr_groups f s rest
+                                            | l4 :: l5 ->
+                                              (match l4 with
+                                               | [] -> sgr_groups f s rest
+                                               | r :: l6 ->
+                                                 (match l6 with
+                                                  | [] ->
+                                                    (match l5 with
+                                                     | [] ->
+                                                       sgr_groups f s rest
+                                                     | l7 :: l8 ->
+                                                       (match l7 with
+                                                        | [] ->
+                                                          sgr_groups f s rest
+                                                        | g :: l9 ->
+                                                          (match l9 with
+                                                           | [] ->
+                                                             (match l8 with
+                                                              | [] ->
+                                                                sgr_groups f
+                                                                  s rest
+                                                              | l10 :: rest' ->
+                                                                (match l10 with
+                                                                 | [] ->
+                                                                   sgr_groups
+                                                                    f s rest
+                                                                 | b :: l11 ->
+                                                                   (match l11 with
+                                                                    | [] ->
+                                                                    sgr_groups
+                                                                    f
+                                                                    (set_target
+                                                                    t s (Some
+                                                                    (CRgb (r,
+                                                                    g, b))))
+                                                                    rest'
+                                                                    | _ :: _ ->
+                                                                    sgr_groups
+                                                                    f s rest)))
+                                                           | _ :: _ ->
+                                                             sgr_groups f s
+                                                               rest)))
+                                                  | _ :: _ ->
+                                                    sgr_groups f s rest)))
+                                         | _ :: _ -> sgr_groups f s rest)
+                                      | _ -> sgr_groups f s rest)
+                                   | XH -> sgr_groups f s rest))))
+                       | None -> sgr_groups f (sgr_code s c) rest)
+                    | n0 :: l1 ->
+                      (match n0 with
+                       | N0 -> sgr_groups f s rest
+                       | Npos p2 ->
+                         (match p2 with
+                          | XI p3 ->
+                            (match p3 with
+                             | XO p4 ->
+                               (match p4 with
+                                | XH ->
+                                  (match l1 with
+                                   | [] -> sgr_groups f s rest
+                                   | n1 :: l2 ->
+                                     (match l2 with
+                                      | [] ->
+                                        (match ext_target c with
+                                         | Some t ->
+                                           sgr_groups f
+                                             (set_target t s (Some (CIdx n1)))
+                                             rest
+                                         | None -> sgr_groups f s rest)
+                                      | _ :: _ -> sgr_groups f s rest))
+                                | _ -> sgr_groups f s rest)
+                             | _ -> sgr_groups f s rest)
+                          | XO p3 ->
+                            (match p3 with
+                             | XH ->
+                               (match l1 with
+                                | [] -> sgr_groups f s rest
+                                | r :: l2 ->
+                                  (match l2 with
+                                   | [] -> sgr_groups f s rest
+                                   | g :: l3 ->
+                                     (match l3 with
+                                      | [] -> sgr_groups f s rest
+                                      | b :: l4 ->
+                                        (match l4 with
+                                         | [] ->
+                                           (match ext_target c with
+                                            | Some t ->
+                                              sgr_groups f
+                                                (set_target t s (Some (CRgb
+                                                  (r, g, b)))) rest
+                                            | None -> sgr_groups f s rest)
+                                         | _ :: _ -> sgr_groups f s rest))))
+                             | _ -> sgr_groups f s rest)
+                          | XH -> sgr_groups f s rest)))
+                 | XO p1 ->
+                   (match p1 with
+                    | XH ->
+                      (match l0 with
+                       | [] ->
+                         (match ext_target c with
+                          | Some t ->
+                            (match rest with
+                             | [] -> sgr_groups f s rest
+                             | l1 :: l2 ->
+                               (match l1 with
+                                | [] -> sgr_groups f s rest
+                                | n0 :: l3 ->
+                                  (match n0 with
+                                   | N0 -> sgr_groups f s rest
+                                   | Npos p2 ->
+                                     (match p2 with
+                                      | XI p3 ->
+                                        (match p3 with
+                                         | XO p4 ->
+                                           (match p4 with
+                                            | XH ->
+                                              (match l3 with
+                                               | [] ->
+                                                 (match l2 with
+                                                  | [] -> sgr_groups f s rest
+                                                  | l4 :: rest' ->
+                                                    (match l4 with
+                                                     | [] ->
+                                                       sgr_groups f s rest
+                                                     | n1 :: l5 ->
+                                                       (match l5 with
+                                                        | [] ->
+                                                          sgr_groups f
+                                                            (set_target t s
+                                                              (Some (CIdx
+                                                              n1))) rest'
+                                                        | _ :: _ ->
+                                                          sgr_groups f s rest)))
+                                               | _ :: _ -> sgr_groups f s rest)
+                                            | _ -> sgr_groups f s rest)
+                                         | _ -> sgr_groups f s rest)
+                                      | XO p3 ->
+                                        (match p3 with
+                                         | XH ->
+                                           (match l3 with
+                                            | [] ->
+                                              (match l2 with
+                                               | [] -> sgr_groups f s rest
+                                               | l4 :: l5 ->
+                                                 (match l4 with
+                                                  | [] -> sgr_groups f s rest
+                                                  | r :: l6 ->
+                                                    (match l6 with
+                                                     | [] ->
+                                                       (match l5 with
+                                                        | [] ->
+                                                          sgr_groups f s rest
+                                                        | l7 :: l8 ->
+                                                          (match l7 with
+                                                           | [] ->
+                                                             sgr_groups f s
+                                                               rest
+                                                           | g :: l9 ->
+                                                             (match l9 with
+                                                              | [] ->
+                                                                (match l8 with
+                                                                 | [] ->
+                                                                   sgr_groups
+                                                                    f s rest
+                                                                 | l10 :: rest' ->
+                                                                   (match l10 with
+                                                                    | [] ->
+                                                                    sgr_groups
+                                                                    f s rest
+                                                                    | b :: l11 ->
+                                                                    (match l11 with
+                                                                    | [] ->
+                                                                    sgr_groups
+                                                                    f
+                                                                    (set_target
+                                                                    t s (Some
+                                                                    (CRgb (r,
+                                                                    g, b))))
+                                                                    rest'
+                                                                    | _ :: _ ->
+                                                                    sgr_groups
+                                                                    f s rest)))
+                                                              | _ :: _ ->
+                                                                sgr_groups f
+                                                                  s rest)))
+                                                     | _ :: _ ->
+                                                       sgr_groups f s rest)))
+                                            | _ :: _ -> sgr_groups f s rest)
+                                         | _ -> sgr_groups f s rest)
+                                      | XH -> sgr_groups f s rest))))
+                          | None -> sgr_groups f (sgr_code s c) rest)
+                       | n0 :: l1 ->
+                         (match n0 with
+                          | N0 ->
+                            (match l1 with
+                             | [] ->
+                               (match underline_kind n0 with
+                                | Some k ->
+                                  sgr_groups f (set_underline s k) rest
+                                | None -> sgr_groups f s rest)
+                             | _ :: _ -> sgr_groups f s rest)
+                          | Npos p2 ->
+                            (match p2 with
+                             | XI p3 ->
+                               (match p3 with
+                                | XO p4 ->
+                                  (match p4 with
+                                   | XH ->
+                                     (match l1 with
+                                      | [] ->
+                                        (match underline_kind n0 with
+                                         | Some k ->
+                                           sgr_groups f (set_underline s k)
+                                             rest
+                                         | None -> sgr_groups f s rest)
+                                      | n1 :: l2 ->
+                                        (match l2 with
+                                         | [] ->
+                                           (match ext_target c with
+                                            | Some t ->
+                                              sgr_groups f
+                                                (set_target t s (Some (CIdx
+                                                  n1))) rest
+                                            | None -> sgr_groups f s rest)
+                                         | _ :: _ -> sgr_groups f s rest))
+                                   | _ ->
+                                     (match l1 with
+                                      | [] ->
+                                        (match underline_kind n0 with
+                                         | Some k ->
+                                           sgr_groups f (set_underline s k)
+                                             rest
+                                         | None -> sgr_groups f s rest)
+                                      | _ :: _ -> sgr_groups f s rest))
+                                | _ ->
+                                  (match l1 with
+                                   | [] ->
+                                     (match underline_kind n0 with
+                                      | Some k ->
+                                        sgr_groups f (set_underline s k) rest
+                                      | None -> sgr_groups f s rest)
+                                   | _ :: _ -> sgr_groups f s rest))
+                             | XO p3 ->
+                               (match p3 with
+                                | XH ->
+                                  (match l1 with
+                                   | [] ->
+                                     (match underline_kind n0 with
+                                      | Some k ->
+                                        sgr_groups f (set_underline s k) rest
+                                      | None -> sgr_groups f s rest)
+                                   | r :: l2 ->
+                                     (match l2 with
+                                      | [] -> sgr_groups f s rest
+                                      | g :: l3 ->
+                                        (match l3 with
+                                         | [] -> sgr_groups f s rest
+                                         | b :: l4 ->
+                                           (match l4 with
+                                            | [] ->
+                                              (match ext_target c with
+                                               | Some t ->
+                                                 sgr_groups f
+                                                   (set_target t s (Some
+                                                     (CRgb (r, g, b)))) rest
+                                               | None -> sgr_groups f s rest)
+                                            | _ :: _ -> sgr_groups f s rest))))
+                                | _ ->
+                                  (match l1 with
+                                   | [] ->
+                                     (match underline_kind n0 with
+                                      | Some k ->
+                                        sgr_groups f (set_underline s k) rest
+                                      | None -> sgr_groups f s rest)
+                                   | _ :: _ -> sgr_groups f s rest))
+                             | XH ->
+                               (match l1 with
+                                | [] ->
+                                  (match underline_kind n0 with
+                                   | Some k ->
+                                     sgr_groups f (set_underline s k) rest
+                                   | None -> sgr_groups f s rest)
+                                | _ :: _ -> sgr_groups f s rest))))
+                    | _ ->
+                      (match l0 with
+                       | [] ->
+                         (match ext_target c with
+                          | Some t ->
+                            (match rest with
+                             | [] -> sgr_groups f s rest
+                             | l1 :: l2 ->
+                               (match l1 with
+                                | [] -> sgr_groups f s rest
+                                | n0 :: l3 ->
+                                  (match n0 with
+                                   | N0 -> sgr_groups f s rest
+                                   | Npos p2 ->
+                                     (match p2 with
+                                      | XI p3 ->
+                                        (match p3 with
+                                         | XO p4 ->
+                                           (match p4 with
+                                            | XH ->
+                                              (match l3 with
+                                               | [] ->
+                                                 (match l2 with
+                                                  | [] -> sgr_groups f s rest
+                                                  | l4 :: rest' ->
+                                                    (match l4 with
+                                                     | [] ->
+                                                       sgr_groups f s rest
+                                                     | n1 :: l5 ->
+                                                       (match l5 with
+                                                        | [] ->
+                                                          sgr_groups f
+                                                            (set_target t s
+                                                              (Some (CIdx
+                                                              n1))) rest'
+                                                        | _ :: _ ->
+                                                          sgr_groups f s rest)))
+                                               | _ :: _ -> sgr_groups f s rest)
+                                            | _ -> sgr_groups f s rest)
+                                         | _ -> sgr_groups f s rest)
+                                      | XO p3 ->
+                                        (match p3 with
+                                         | XH ->
+                                           (match l3 with
+                                            | [] ->
+                                              (match l2 with
+                                               | [] -> sgr_groups f s rest
+                                               | l4 :: l5 ->
+                                                 (match l4 with
+                                                  | [] -> sgr_groups f s rest
+                                                  | r :: l6 ->
+                                                    (match l6 with
+                                                     | [] ->
+                                                       (match l5 with
+                                                        | [] ->
+                                                          sgr_groups f s rest
+                                                        | l7 :: l8 ->
+                                                          (match l7 with
+                                                           | [] ->
+                                                             sgr_groups f s
+                                                               rest
+                                                           | g :: l9 ->
+                                                             (match l9 with
+                                                              | [] ->
+                                                                (match l8 with
+                                                                 | [] ->
+                                                                   sgr_groups
+                                                                    f s rest
+                                                                 | l10 :: rest' ->
+                                                                   (match l10 with
+                                                                    | [] ->
+                                                                    sgr_groups
+                                                                    f s rest
+                                                                    | b :: l11 ->
+                                                                    (match l11 with
+                                                                    | [] ->
+                                                                    sgr_groups
+                                                                    f
+                                                                    (set_target
+                                                                    t s (Some
+                                                                    (CRgb (r,
+                                                                    g, b))))
+                                                                    rest'
+                                                                    | _ :: _ ->
+                                                                    sgr_groups
+                                                                    f s rest)))
+                                                              | _ :: _ ->
+                                                                sgr_groups f
+                                                                  s rest)))
+                                                     | _ :: _ ->
+                                                       sgr_groups f s rest)))
+                                            | _ :: _ -> sgr_groups f s rest)
+                                         | _ -> sgr_groups f s rest)
+                                      | XH -> sgr_groups f s rest))))
+                          | None -> sgr_groups f (sgr_code s c) rest)
+                       | n0 :: l1 ->
+                         (match n0 with
+                          | N0 -> sgr_groups f s rest
+                          | Npos p3 ->
+                            (match p3 with
+                             | XI p4 ->
+                               (match p4 with
+                                | XO p5 ->
+                                  (match p5 with
+                                   | XH ->
+                                     (match l1 with
+                                      | [] -> sgr_groups f s rest
+                                      | n1 :: l2 ->
+                                        (match l2 with
+                                         | [] ->
+                                           (match ext_target c with
+                                            | Some t ->
+                                              sgr_groups f
+                                                (set_target t s (Some (CIdx
+                                                  n1))) rest
+                                            | None -> sgr_groups f s rest)
+                                         | _ :: _ -> sgr_groups f s rest))
+                                   | _ -> sgr_groups f s rest)
+                                | _ -> sgr_groups f s rest)
+                             | XO p4 ->
+                               (match p4 with
+                                | XH ->
+                                  (match l1 with
+                                   | [] -> sgr_groups f s rest
+                                   | r :: l2 ->
+                                     (match l2 with
+                                      | [] -> sgr_groups f s rest
+                                      | g :: l3 ->
+                                        (match l3 with
+                                         | [] -> sgr_groups f s rest
+                                         | b :: l4 ->
+                                           (match l4 with
+                                            | [] ->
+                                              (match ext_target c with
+                                               | Some t ->
+                                                 sgr_groups f
+                                                   (set_target t s (Some
+                                                     (CRgb (r, g, b)))) rest
+                                               | None -> sgr_groups f s rest)
+                                            | _ :: _ -> sgr_groups f s rest))))
+                                | _ -> sgr_groups f s rest)
+                             | XH -> sgr_groups f s rest))))
+                 | XH ->
+                   (match l0 with
+                    | [] ->
+                      (match ext_target c with
+                       | Some t ->
+                         (match rest with
+                          | [] -> sgr_groups f s rest
+                          | l1 :: l2 ->
+                            (match l1 with
+                             | [] -> sgr_groups f s rest
+                             | n0 :: l3 ->
+                               (match n0 with
+                                | N0 -> sgr_groups f s rest
+                                | Npos p1 ->
+                                  (match p1 with
+                                   | XI p2 ->
+                                     (match p2 with
+                                      | XO p3 ->
+                                        (match p3 with
+                                         | XH ->
+                                           (match l3 with
+                                            | [] ->
+                                              (match l2 with
+                                               | [] -> sgr_groups f s rest
+                                               | l4 :: rest' ->
+                                                 (match l4 with
+                                                  | [] -> sgr_groups f s rest
+                                                  | n1 :: l5 ->
+                                                    (match l5 with
+                                                     | [] ->
+                                                       sgr_groups f
+                                                         (set_target t s
+                                                           (Some (CIdx n1)))
+                                                         rest'
+                                                     | _ :: _ ->
+                                                       sgr_groups f s rest)))
+                                            | _ :: _ -> sgr_groups f s rest)
+                                         | _ -> sgr_groups f s rest)
+                                      | _ -> sgr_groups f s rest)
+                                   | XO p2 ->
+                                     (match p2 with
+                                      | XH ->
+                                        (match l3 with
+                                         | [] ->
+                                           (match l2 with
+                                            | [] -> sgr_groups f s rest
+                                            | l4 :: l5 ->
+                                              (match l4 with
+                                               | [] -> sgr_groups f s rest
+                                               | r :: l6 ->
+                                                 (match l6 with
+                                                  | [] ->
+                                                    (match l5 with
+                                                     | [] ->
+                                                       sgr_groups f s rest
+                                                     | l7 :: l8 ->
+                                                       (match l7 with
+                                                        | [] ->
+                                                          sgr_groups f s rest
+                                                        | g :: l9 ->
+                                                          (match l9 with
+                                                           | [] ->
+                                                             (match l8 with
+                                                              | [] ->
+                                                                sgr_groups f
+                                                                  s rest
+                                                              | l10 :: rest' ->
+                                                                (match l10 with
+                                                                 | [] ->
+                                                                   sgr_groups
+                                                                    f s rest
+                                                                 | b :: l11 ->
+                                                                   (match l11 with
+                                                                    | [] ->
+                                                                    sgr_groups
+                                                                    f
+                                                                    (set_target
+                                                                    t s (Some
+                                                                    (CRgb (r,
+                                                                    g, b))))
+                                                                    rest'
+                                                                    | _ :: _ ->
+                                                                    sgr_groups
+                                                                    f s rest)))
+                                                           | _ :: _ ->
+                                                             sgr_groups f s
+                                                               rest)))
+                                                  | _ :: _ ->
+                                                    sgr_groups f s rest)))
+                                         | _ :: _ -> sgr_groups f s rest)
+                                      | _ -> sgr_groups f s rest)
+                                   | XH -> sgr_groups f s rest))))
+                       | None -> sgr_groups f (sgr_code s c) rest)
+                    | n0 :: l1 ->
+                      (match n0 with
+                       | N0 -> sgr_groups f s rest
+                       | Npos p1 ->
+                         (match p1 with
+                          | XI p2 ->
+                            (match p2 with
+                             | XO p3 ->
+                               (match p3 with
+                                | XH ->
+                                  (match l1 with
+                                   | [] -> sgr_groups f s rest
+                                   | n1 :: l2 ->
+                                     (match l2 with
+                                      | [] ->
+                                        (match ext_target c with
+                                         | Some t ->
+                                           sgr_groups f
+                                             (set_target t s (Some (CIdx n1)))
+                                             rest
+                                         | None -> sgr_groups f s rest)
+                                      | _ :: _ -> sgr_groups f s rest))
+                                | _ -> sgr_groups f s rest)
+                             | _ -> sgr_groups f s rest)
+                          | XO p2 ->
+                            (match p2 with
+                             | XH ->
+                               (match l1 with
+                                | [] -> sgr_groups f s rest
+                                | r :: l2 ->
+                                  (match l2 with
+                                   | [] -> sgr_groups f s rest
+                                   | g :: l3 ->
+                                     (match l3 with
+                                      | [] -> sgr_groups f s rest
+                                      | b :: l4 ->
+                                        (match l4 with
+                                         | [] ->
+                                           (match ext_target c with
+                                            | Some t ->
+                                              sgr_groups f
+                                                (set_target t s (Some (CRgb
+                                                  (r, g, b)))) rest
+                                            | None -> sgr_groups f s rest)
+                                         | _ :: _ -> sgr_groups f s rest))))
+                             | _ -> sgr_groups f s rest)
+                          | XH -> sgr_groups f s rest))))
+              | XH ->
+                (match l0 with
+                 | [] ->
+                   (match ext_target c with
+                    | Some t ->
+                      (match rest with
+                       | [] -> sgr_groups f s rest
+                       | l1 :: l2 ->
+                         (match l1 with
+                          | [] -> sgr_groups f s rest
+                          | n0 :: l3 ->
+                            (match n0 with
+                             | N0 -> sgr_groups f s rest
+                             | Npos p0 ->
+                               (match p0 with
+                                | XI p1 ->
+                                  (match p1 with
+                                   | XO p2 ->
+                                     (match p2 with
+                                      | XH ->
+                                        (match l3 with
+                                         | [] ->
+                                           (match l2 with
+                                            | [] -> sgr_groups f s rest
+                                            | l4 :: rest' ->
+                                              (match l4 with
+                                               | [] -> sgr_groups f s rest
+                                               | n1 :: l5 ->
+                                                 (match l5 with
+                                                  | [] ->
+                                                    sgr_groups f
+                                                      (set_target t s (Some
+                                                        (CIdx n1))) rest'
+                                                  | _ :: _ ->
+                                                    sgr_groups f s rest)))
+                                         | _ :: _ -> sgr_groups f s rest)
+                                      | _ -> sgr_groups f s rest)
+                                   | _ -> sgr_groups f s rest)
+                                | XO p1 ->
+                                  (match p1 with
+                                   | XH ->
+                                     (match l3 with
+                                      | [] ->
+                                        (match l2 with
+                                         | [] -> sgr_groups f s rest
+                                         | l4 :: l5 ->
+                                           (match l4 with
+                                            | [] -> sgr_groups f s rest
+                                            | r :: l6 ->
+                                              (match l6 with
+                                               | [] ->
+                                                 (match l5 with
+                                                  | [] -> sgr_groups f s rest
+                                                  | l7 :: l8 ->
+                                                    (match l7 with
+                                                     | [] ->
+                                                       sgr_groups f s rest
+                                                     | g :: l9 ->
+                                                       (match l9 with
+                                                        | [] ->
+                                                          (match l8 with
+                                                           | [] ->
+                                                             sgr_groups f s
+                                                               rest
+                                                           | l10 :: rest' ->
+                                                             (match l10 with
+                                                              | [] ->
+                                                                sgr_groups f
+                                                                  s rest
+                                                              | b :: l11 ->
+                                                                (match l11 with
+                                                                 | [] ->
+                                                                   sgr_groups
+                                                                    f
+                                                                    (set_target
+                                                                    t s (Some
+                                                                    (CRgb (r,
+                                                                    g, b))))
+                                                                    rest'
+                                                                 | _ :: _ ->
+                                                                   sgr_groups
+                                                                    f s rest)))
+                                                        | _ :: _ ->
+                                                          sgr_groups f s rest)))
+                                               | _ :: _ -> sgr_groups f s rest)))
+                                      | _ :: _ -> sgr_groups f s rest)
+                                   | _ -> sgr_groups f s rest)
+                                | XH -> sgr_groups f s rest))))
+                    | None -> sgr_groups f (sgr_code s c) rest)
+                 | n0 :: l1 ->
+                   (match n0 with
+                    | N0 -> sgr_groups f s rest
+                    | Npos p0 ->
+                      (match p0 with
+                       | XI p1 ->
+                         (match p1 with
+                          | XO p2 ->
+                            (match p2 with
+                             | XH ->
+                               (match l1 with
+                                | [] -> sgr_groups f s rest
+                                | n1 :: l2 ->
+                                  (match l2 with
+                                   | [] ->
+                                     (match ext_target c with
+                                      | Some t ->
+                                        sgr_groups f
+                                          (set_target t s (Some (CIdx n1)))
+                                          rest
+                                      | None -> sgr_groups f s rest)
+                                   | _ :: _ -> sgr_groups f s rest))
+                             | _ -> sgr_groups f s rest)
+                          | _ -> sgr_groups f s rest)
+                       | XO p1 ->
+                         (match p1 with
+                          | XH ->
+                            (match l1 with
+                             | [] -> sgr_groups f s rest
+                             | r :: l2 ->
+                               (match l2 with
+                                | [] -> sgr_groups f s rest
+                                | g :: l3 ->
+                                  (match l3 with
+                                   | [] -> sgr_groups f s rest
+                                   | b :: l4 ->
+                                     (match l4 with
+                                      | [] ->
+                                        (match ext_target c with
+                                         | Some t ->
+                                           sgr_groups f
+                                             (set_target t s (Some (CRgb (r,
+                                               g, b)))) rest
+                                         | None -> sgr_groups f s rest)
+                                      | _ :: _ -> sgr_groups f s rest))))
+                          | _ -> sgr_groups f s rest)
+                       | XH -> sgr_groups f s rest)))))))
+
+(** val sgr_apply : sstyle -> n list list -> sstyle **)
+
+let sgr_apply s gs =
+  sgr_groups (S (length gs)) s gs
+
+(** val event_style : sstyle -> event -> sstyle **)
+
+let event_style s = function
+| ECsi (ps, ints0, ign0, b) ->
+  (match ints0 with
+   | [] ->
+     if ign0
+     then s
+     else (match b with
+           | N0 -> s
+           | Npos p ->
+             (match p with
+              | XI p0 ->
+                (match p0 with
+                 | XO p1 ->
+                   (match p1 with
+                    | XI p2 ->
+                      (match p2 with
+                       | XI p3 ->
+                         (match p3 with
+                          | XO p4 ->
+                            (match p4 with
+                             | XI p5 ->
+                               (match p5 with
+                                | XH -> sgr_apply s ps
+                                | _ -> s)
+                             | _ -> s)
+                          | _ -> s)
+                       | _ -> s)
+                    | _ -> s)
+                 | _ -> s)
+              | _ -> s))
+   | _ :: _ -> s)
+| _ -> s
+
+(** val is_ws_exec : n -> bool **)
+
+let is_ws_exec b =
+  (||)
+    ((||)
+      ((||) (N.eqb b (Npos (XI (XO (XO XH)))))
+        (N.eqb b (Npos (XO (XI (XO XH))))))
+      (N.eqb b (Npos (XO (XO (XI XH)))))) (N.eqb b (Npos (XI (XO (XI XH)))))
+
+(** val interp : sstyle -> event list -> (sstyle * n) list * sstyle **)
+
+let rec interp s = function
+| [] -> ([], s)
+| e :: rest ->
+  let s1 = event_style s e in
+  let (out, s2) = interp s1 rest in
+  (match e with
+   | EPrint cp -> (((s1, cp) :: out), s2)
+   | EExecute b -> if is_ws_exec b then (((s1, b) :: out), s2) else (out, s2)
+   | _ -> (out, s2))
+
+(** val colour_eqb : colour -> colour -> bool **)
+
+let colour_eqb a b =
+  match a with
+  | CAnsi x -> (match b with
+                | CAnsi y -> N.eqb x y
+                | _ -> false)
+  | CIdx x -> (match b with
+               | CIdx y -> N.eqb x y
+               | _ -> false)
+  | CRgb (r, g, b0) ->
+    (match b with
+     | CRgb (r', g', b') ->
+       (&&) ((&&) (N.eqb r r') (N.eqb g g')) (N.eqb b0 b')
+     | _ -> false)
+
+(** val opt_colour_eqb : colour option -> colour option -> bool **)
+
+let opt_colour_eqb a b =
+  match a with
+  | Some x -> (match b with
+               | Some y -> colour_eqb x y
+               | None -> false)
+  | None -> (match b with
+             | Some _ -> false
+             | None -> true)
+
+(** val sstyle_eqb : sstyle -> sstyle -> bool **)
+
+let sstyle_eqb a b =
+  (&&)
+    ((&&)
+      ((&&) (opt_colour_eqb a.s_fg b.s_fg) (opt_colour_eqb a.s_bg b.s_bg))
+      (opt_colour_eqb a.s_ul b.s_ul)) (N.eqb a.s_eff b.s_eff)
+
+(** val group_runs : (sstyle * n) list -> (sstyle * n list) list **)
+
+let rec group_runs = function
+| [] -> []
+| p :: rest ->
+  let (s, c) = p in
+  (match group_runs rest with
+   | [] -> (s, (c :: [])) :: []
+   | p0 :: rest' ->
+     let (s', t) = p0 in
+     if sstyle_eqb s s'
+     then (s, (c :: t)) :: rest'
+     else (s, (c :: [])) :: ((s', t) :: rest'))
+
+(** val spec_runs : n list -> (sstyle * n list) list **)
+
+let spec_runs bs =
+  group_runs (fst (interp style_default (spec_events bs)))
+
+type wstate =
+| WNormal
+| WPrepareCustomColor
+| WAnsi256
+| WRgb
+| WUnderline
+
+type dstate = { d_style : sstyle; d_state : wstate; d_r : n option;
+                d_g : n option; d_target : target }
+
+(** val st_insert : sstyle -> n -> sstyle **)
+
+let st_insert s k =
+  { s_fg = s.s_fg; s_bg = s.s_bg; s_ul = s.s_ul; s_eff =
+    (N.coq_lor s.s_eff (bit k)) }
+
+(** val st_remove : sstyle -> n -> sstyle **)
+
+let st_remove s k =
+  { s_fg = s.s_fg; s_bg = s.s_bg; s_ul = s.s_ul; s_eff =
+    (N.ldiff s.s_eff (bit k)) }
+
+(** val style_eqb : sstyle -> sstyle -> bool **)
+
+let style_eqb =
+  sstyle_eqb
+
+(** val to_ansi_color : n -> n option **)
+
+let to_ansi_color d =
+  if N.leb d (Npos (XI (XI XH))) then Some d else None
+
+(** val set_d : dstate -> sstyle -> wstate -> dstate **)
+
+let set_d d s w =
+  { d_style = s; d_state = w; d_r = d.d_r; d_g = d.d_g; d_target =
+    d.d_target }
+
+(** val value_step : dstate -> n -> (dstate * bool) option **)
+
+let value_step d v =
+  let s = d.d_style in
+  (match d.d_state with
+   | WNormal ->
+     if N.eqb v N0
+     then Some ((set_d d style_default WNormal), true)
+     else if N.eqb v (Npos XH)
+          then Some ((set_d d (st_insert s bOLD) WNormal), true)
+          else if N.eqb v (Npos (XO XH))
+               then Some ((set_d d (st_insert s dIMMED) WNormal), true)
+               else if N.eqb v (Npos (XI XH))
+                    then Some ((set_d d (st_insert s iTALIC) WNormal), true)
+                    else if N.eqb v (Npos (XO (XO XH)))
+                         then Some
+                                ((set_d d (st_insert s uNDERLINE) WUnderline),
+                                false)
+                         else if N.eqb v (Npos (XI (XO (XI (XO XH)))))
+                              then Some
+                                     ((set_d d (st_insert s dOUBLE_UNDERLINE)
+                                        WNormal), true)
+                              else if N.eqb v (Npos (XI (XI XH)))
+                                   then Some
+                                          ((set_d d (st_insert s iNVERT)
+                                             WNormal), true)
+                                   else if N.eqb v (Npos (XO (XO (XO XH))))
+                                        then Some
+                                               ((set_d d (st_insert s hIDDEN)
+                                                  WNormal), true)
+                                        else if N.eqb v (Npos (XI (XO (XO
+                                                  XH))))
+                                             then Some
+                                                    ((set_d d
+                                                       (st_insert s
+                                                         sTRIKETHROUGH)
+                                                       WNormal), true)
+                                             else if in_rng (Npos (XO (XI (XI
+                                                       (XI XH))))) (Npos (XI
+                                                       (XO (XI (XO (XO
+                                                       XH)))))) v
+                                                  then (match csub v (Npos
+                                                                (XO (XI (XI
+                                                                (XI XH))))) with
+                                                        | Some x ->
+                                                          (match to_ansi_color
+                                                                   x with
+                                                           | Some c ->
+                                                             Some
+                                                               ((set_d d
+                                                                  (set_fg s
+                                                                    (Some
+                                                                    (CAnsi
+                                                                    c)))
+                                                                  WNormal),
+                                                               true)
+                                                           | None -> None)
+                                                        | None -> None)
+                                                  else if N.eqb v (Npos (XO
+                                                            (XI (XI (XO (XO
+                                                            XH))))))
+                                                       then Some ({ d_style =
+                                                              s; d_state =
+                                                              WPrepareCustomColor;
+                                                              d_r = d.d_r;
+                                                              d_g = d.d_g;
+                                                              d_target =
+                                                              TFg }, false)
+                                                       else if N.eqb v (Npos
+                                                                 (XI (XI (XI
+                                                                 (XO (XO
+                                                                 XH))))))
+                                                            then Some
+                                                                   ((set_d d
+                                                                    (set_fg s
+                                                                    None)
+                                                                    WNormal),
+                                                                   true)
+                                                            else if in_rng
+                                                                    (Npos (XO
+                                                                    (XO (XO
+                                                                    (XI (XO
+                                                                    XH))))))
+                                                                    (Npos (XI
+                                                                    (XI (XI
+                                                                    (XI (XO
+                                                                    XH)))))) v
+                                                                 then 
+                                                                   (match 
+                                                                    csub v
+                                                                    (Npos (XO
+                                                                    (XO (XO
+                                                                    (XI (XO
+                                                                    XH)))))) with
+                                                                    | Some x ->
+                                                                    (match 
+                                                                    to_ansi_color
+                                                                    x with
+                                                                    | Some c ->
+                                                                    Some
+                                                                    ((set_d d
+                                                                    (set_bg s
+                                                                    (Some
+                                                                    (CAnsi
+                                                                    c)))
+                                                                    WNormal),
+                                                                    true)
+                                                                    | None ->
+                                                                    None)
+                                                                    | None ->
+                                                                    None)
+                                                                 else 
+                                                                   if 
+                                                                    N.eqb v
+                                                                    (Npos (XO
+                                                                    (XO (XO
+                                                                    (XO (XI
+                                                                    XH))))))
+                                                                   then 
+                                                                    Some
+                                                                    ({ d_style =
+                                                                    s;
+                                                                    d_state =
+                                                                    WPrepareCustomColor;
+                                                                    d_r =
+                                                                    d.d_r;
+                                                                    d_g =
+                                                                    d.d_g;
+                                                                    d_target =
+                                                                    TBg },
+                                                                    false)
+                                                                   else 
+                                                                    if 
+                                                                    N.eqb v
+                                                                    (Npos (XI
+                                                                    (XO (XO
+                                                                    (XO (XI
+                                                                    XH))))))
+                                                                    then 
+                                                                    Some
+                                                                    ((set_d d
+                                                                    (set_bg s
+                                                                    None)
+                                                                    WNormal),
+                                                                    true)
+                                                                    else 
+                                                                    if 
+                                                                    N.eqb v
+                                                                    (Npos (XO
+                                                                    (XI (XO
+                                                                    (XI (XI
+                                                                    XH))))))
+                                                                    then 
+                                                                    Some
+                                                                    ({ d_style =
+                                                                    s;
+                                                                    d_state =
+                                                                    WPrepareCustomColor;
+                                                                    d_r =
+                                                                    d.d_r;
+                                                                    d_g =
+                                                                    d.d_g;
+                                                                    d_target =
+                                                                    TUl },
+                                                                    false)
+                                                                    else 
+                                                                    if 
+                                                                    in_rng
+                                                                    (Npos (XO
+                                                                    (XI (XO
+                                                                    (XI (XI
+                                                                    (XO
+                                                                    XH)))))))
+                                                                    (Npos (XI
+                                                                    (XO (XO
+                                                                    (XO (XO
+                                                                    (XI
+                                                                    XH)))))))
+                                                                    v
+                                                                    then 
+                                                                    (match 
+                                                                    csub v
+                                                                    (Npos (XO
+                                                                    (XI (XO
+                                                                    (XI (XI
+                                                                    (XO
+                                                                    XH))))))) with
+                                                                    | Some x ->
+                                                                    (match 
+                                                                    to_ansi_color
+                                                                    x with
+                                                                    | Some c ->
+                                                                    Some
+                                                                    ((set_d d
+                                                                    (set_fg s
+                                                                    (Some
+                                                                    (CAnsi
+                                                                    (N.add c
+                                                                    (Npos (XO
+                                                                    (XO (XO
+                                                                    XH))))))))
+                                                                    WNormal),
+                                                                    true)
+                                                                    | None ->
+                                                                    None)
+                                                                    | None ->
+                                                                    None)
+                                                                    else 
+                                                                    if 
+                                                                    in_rng
+                                                                    (Npos (XO
+                                                                    (XO (XI
+                                                                    (XO (XO
+                                                                    (XI
+                                                                    XH)))))))
+                                                                    (Npos (XI
+                                                                    (XI (XO
+                                                                    (XI (XO
+                                                                    (XI
+                                                                    XH)))))))
+                                                                    v
+                                                                    then 
+                                                                    (match 
+                                                                    csub v
+                                                                    (Npos (XO
+                                                                    (XO (XI
+                                                                    (XO (XO
+                                                                    (XI
+                                                                    XH))))))) with
+                                                                    | Some x ->
+                                                                    (match 
+                                                                    to_ansi_color
+                                                                    x with
+                                                                    | Some c ->
+                                                                    Some
+                                                                    ((set_d d
+                                                                    (set_bg s
+                                                                    (Some
+                                                                    (CAnsi
+                                                                    (N.add c
+                                                                    (Npos (XO
+                                                                    (XO (XO
+                                                                    XH))))))))
+                                                                    WNormal),
+                                                                    true)
+                                                                    | None ->
+                                                                    None)
+                                                                    | None ->
+                                                                    None)
+                                                                    else 
+                                                                    Some
+                                                                    ((set_d d
+                                                                    s WNormal),
+                                                                    true)
+   | WPrepareCustomColor ->
+     if N.eqb v (Npos (XI (XO XH)))
+     then Some ((set_d d s WAnsi256), false)
+     else if N.eqb v (Npos (XO XH))
+          then Some ({ d_style = s; d_state = WRgb; d_r = None; d_g = None;
+                 d_target = d.d_target }, false)
+          else Some ((set_d d s WNormal), true)
+   | WAnsi256 ->
+     Some
+       ((set_d d
+          (set_target d.d_target s (Some (CIdx
+            (N.modulo v (Npos (XO (XO (XO (XO (XO (XO (XO (XO XH)))))))))))))
+          WNormal), true)
+   | WRgb ->
+     (match d.d_r with
+      | Some r ->
+        (match d.d_g with
+         | Some g ->
+           Some
+             ((set_d d
+                (set_target d.d_target s (Some (CRgb
+                  ((N.modulo r (Npos (XO (XO (XO (XO (XO (XO (XO (XO
+                     XH)))))))))),
+                  (N.modulo g (Npos (XO (XO (XO (XO (XO (XO (XO (XO
+                    XH)))))))))),
+                  (N.modulo v (Npos (XO (XO (XO (XO (XO (XO (XO (XO
+                    XH)))))))))))))) WNormal), true)
+         | None ->
+           Some ({ d_style = s; d_state = WRgb; d_r = d.d_r; d_g = (Some v);
+             d_target = d.d_target }, false))
+      | None ->
+        Some ({ d_style = s; d_state = WRgb; d_r = (Some v); d_g = d.d_g;
+          d_target = d.d_target }, false))
+   | WUnderline ->
+     if N.eqb v N0
+     then Some ((set_d d (st_remove s uNDERLINE) WUnderline), false)
+     else if N.eqb v (Npos XH)
+          then Some (d, false)
+          else if N.eqb v (Npos (XO XH))
+               then Some
+                      ((set_d d
+                         (st_insert (st_remove s uNDERLINE) dOUBLE_UNDERLINE)
+                         WUnderline), false)
+               else if N.eqb v (Npos (XI XH))
+                    then Some
+                           ((set_d d
+                              (st_insert (st_remove s uNDERLINE)
+                                cURLY_UNDERLINE) WUnderline), false)
+                    else if N.eqb v (Npos (XO (XO XH)))
+                         then Some
+                                ((set_d d
+                                   (st_insert (st_remove s uNDERLINE)
+                                     dOTTED_UNDERLINE) WUnderline), false)
+                         else if N.eqb v (Npos (XI (XO XH)))
+                              then Some
+                                     ((set_d d
+                                        (st_insert (st_remove s uNDERLINE)
+                                          dASHED_UNDERLINE) WUnderline),
+                                     false)
+                              else Some ((set_d d s WNormal), true))
+
+(** val values_loop : dstate -> n list -> dstate option **)
+
+let rec values_loop d = function
+| [] -> Some d
+| v :: rest ->
+  (match value_step d v with
+   | Some p ->
+     let (d1, brk) = p in if brk then Some d1 else values_loop d1 rest
+   | None -> None)
+
+(** val params_loop : dstate -> n list list -> dstate option **)
+
+let rec params_loop d = function
+| [] -> Some d
+| p :: rest ->
+  (match values_loop d p with
+   | Some d1 ->
+     let d2 =
+       match d1.d_state with
+       | WUnderline -> set_d d1 d1.d_style WNormal
+       | _ -> d1
+     in
+     params_loop d2 rest
+   | None -> None)
+
+(** val sgr_dispatch : sstyle -> n list list -> sstyle option **)
+
+let sgr_dispatch s ps =
+  match params_loop { d_style = s; d_state = WNormal; d_r = None; d_g = None;
+          d_target = TFg } ps with
+  | Some d -> Some d.d_style
+  | None -> None
+
+type capture = { c_style : sstyle; c_printable : n list;
+                 c_ready : sstyle option }
+
+(** val capture_default : capture **)
+
+let capture_default =
+  { c_style = style_default; c_printable = []; c_ready = None }
+
+(** val capture_event : capture -> event -> capture option **)
+
+let capture_event c = function
+| EPrint cp ->
+  Some { c_style = c.c_style; c_printable = (app c.c_printable (cp :: []));
+    c_ready = c.c_ready }
+| EExecute b ->
+  if is_ascii_whitespace b
+  then Some { c_style = c.c_style; c_printable =
+         (app c.c_printable (b :: [])); c_ready = c.c_ready }
+  else Some c
+| ECsi (ps, ints0, ign0, action0) ->
+  if ign0
+  then Some c
+  else if negb (N.eqb action0 (Npos (XI (XO (XI (XI (XO (XI XH))))))))
+       then Some c
+       else if negb (match ints0 with
+                     | [] -> true
+                     | _ :: _ -> false)
+            then Some c
+            else (match sgr_dispatch c.c_style ps with
+                  | Some style ->
+                    let ready =
+                      if (&&) (negb (style_eqb style c.c_style))
+                           (negb
+                             (match c.c_printable with
+                              | [] -> true
+                              | _ :: _ -> false))
+                      then Some c.c_style
+                      else c.c_ready
+                    in
+                    Some { c_style = style; c_printable = c.c_printable;
+                    c_ready = ready }
+                  | None -> None)
+| _ -> Some c
+
+(** val capture_events : capture -> event list -> capture option **)
+
+let rec capture_events c = function
+| [] -> Some c
+| e :: rest ->
+  (match capture_event c e with
+   | Some c1 -> capture_events c1 rest
+   | None -> None)
+
+(** val wn_loop :
+    n list -> parser0 -> capture -> ((n list * parser0) * capture) option **)
+
+let rec wn_loop bs p c =
+  match c.c_ready with
+  | Some _ -> Some ((bs, p), c)
+  | None ->
+    (match bs with
+     | [] -> Some (([], p), c)
+     | b :: rest ->
+       (match advance cfg_default p b with
+        | Some p0 ->
+          let (p1, evs) = p0 in
+          (match capture_events c evs with
+           | Some c1 -> wn_loop rest p1 c1
+           | None -> None)
+        | None -> None))
+
+(** val wincon_next :
+    n list -> parser0 -> capture -> ((((sstyle * n list) option * n
+    list) * parser0) * capture) option **)
+
+let wincon_next bs p c =
+  let c1 = { c_style = c.c_style; c_printable = c.c_printable; c_ready =
+    None }
+  in
+  (match wn_loop bs p c1 with
+   | Some p0 ->
+     let (p1, c2) = p0 in
+     let (bs1, p2) = p1 in
+     (match c2.c_printable with
+      | [] -> Some (((None, bs1), p2), c2)
+      | n0 :: l ->
+        let style = match c2.c_ready with
+                    | Some s -> s
+                    | None -> c2.c_style in
+        Some ((((Some (style, (n0 :: l))), bs1), p2), { c_style = c2.c_style;
+        c_printable = []; c_ready = c2.c_ready }))
+   | None -> None)
+
+(** val wincon_iter :
+    nat -> n list -> parser0 -> capture -> (((sstyle * n list)
+    list * parser0) * capture) option **)
+
+let rec wincon_iter fuel bs p c =
+  match fuel with
+  | O -> None
+  | S f ->
+    (match wincon_next bs p c with
+     | Some p0 ->
+       let (p1, c1) = p0 in
+       let (p2, p3) = p1 in
+       let (item, bs1) = p2 in
+       (match item with
+        | Some it ->
+          (match wincon_iter f bs1 p3 c1 with
+           | Some p4 ->
+             let (p5, c2) = p4 in
+             let (its, p6) = p5 in Some (((it :: its), p6), c2)
+           | None -> None)
+        | None -> Some (([], p3), c1))
+     | None -> None)
+
+(** val extract_next :
+    n list -> parser0 -> capture -> (((sstyle * n list)
+    list * parser0) * capture) option **)
+
+let extract_next bs p c =
+  wincon_iter (S (S (length bs))) bs p { c_style = c.c_style; c_printable =
+    c.c_printable; c_ready = None }
+
+(** val extract_chunks :
+    n list list -> parser0 -> capture -> (((sstyle * n list) list
+    list * parser0) * capture) option **)
+
+let rec extract_chunks chunks p c =
+  match chunks with
+  | [] -> Some (([], p), c)
+  | ch :: rest ->
+    (match extract_next ch p c with
+     | Some p0 ->
+       let (p1, c1) = p0 in
+       let (its, p2) = p1 in
+       (match extract_chunks rest p2 c1 with
+        | Some p3 ->
+          let (p4, c2) = p3 in
+          let (itss, p5) = p4 in Some (((its :: itss), p5), c2)
+        | None -> None)
+     | None -> None)
+
+(** val merge_runs : (sstyle * n list) list -> (sstyle * n list) list **)
+
+let rec merge_runs = function
+| [] -> []
+| p :: rest ->
+  let (s, t) = p in
+  (match merge_runs rest with
+   | [] -> (s, t) :: []
+   | p0 :: rest' ->
+     let (s', t') = p0 in
+     if style_eqb s s'
+     then (s, (app t t')) :: rest'
+     else (s, t) :: ((s', t') :: rest'))
